@@ -5,7 +5,7 @@ extern crate alloc;
 use vstd::prelude::*;
 use vstd::multiset::Multiset;
 use vstd::std_specs::iter::IteratorSpec;
-use vstd::std_specs::cmp::PartialEqSpec;
+use vstd::std_specs::cmp::{PartialEqSpec, PartialEqSpecImpl};
 use core::alloc::Allocator;
 use core::cmp::Ordering;
 use core::mem;
